@@ -422,7 +422,7 @@ class LiteralType(AbstractType):
         return LiteralType(d["literals"])
 
     def to_dict(self) -> dict[str, Any]:
-        return {"kind": self.__class__.__name__, "literals": self.literals}
+        return {"kind": self.__class__.__name__, "literals": list(self.literals)}
 
     def __eq__(self, other: object) -> bool:
         if not isinstance(other, LiteralType):  # pragma: no cover
